@@ -52,3 +52,45 @@ CONTRACTS["programs:ProgramInstructions.__init__#no_alloc_overwrite"] = dict(
     schema=schema, fragment={"iter": "alloc.items()"}, make_env=_env("alloc", "none"), concrete_new=["TimeSeries"],
     ensures=[("C11+C09.none_is_not_an_overwrite", "'p' not in STORE")],
     defined_props=["C11", "C09"])
+
+
+# ---- Program.get_spend / Program.is_one_off (C11, C13, C09): program-book spending is read stepwise (the value in force, not a ramp); `total` adds the
+# baseline spending; a unit cost per person is one-off, a unit cost per person per year is continuous
+def _env_spend(it):
+    from pyvc.interp import PyObjV
+    from pyvc.core import Opaque
+    from pyvc import source
+
+    um = source.load("utils")
+    mk = lambda n: PyObjV("TimeSeries", um, {"units": n, "TAG": n})
+    return {"self": PyObjV("Program", source.load("programs"), {"name": "prog", "spend_data": mk("spend"), "baseline_spend": mk("baseline")}), "year": Opaque("years"), "CALLS": []}
+
+
+def _ghost_interp(it, year, method=None):
+    it.live_env["CALLS"].append((it.stub_receiver.fields["TAG"], year, method))
+    return z3.Real("value_of_" + it.stub_receiver.fields["TAG"])
+
+
+for _total in (False, True):
+    CONTRACTS["programs:Program.get_spend#%s" % ("with_baseline" if _total else "programmatic_only")] = dict(
+        schema=schema, make_env=_env_spend, ghost_params={"total": "const:%r" % _total, "value_of_spend": "real", "value_of_baseline": "real"},
+        call_stubs={"self.spend_data.interpolate": _ghost_interp, "self.baseline_spend.interpolate": _ghost_interp},
+        ensures=[("C11+C13+C09.book_spending_is_the_value_in_force_in_each_year", "all(c[1] is year and c[2] == 'previous' for c in CALLS) and CALLS[0][0] == 'spend'"),
+                 ("C11+C13.total_spending_adds_the_baseline" if _total else "C11+C13.programmatic_spending_excludes_the_baseline", "result == value_of_spend + value_of_baseline and len(CALLS) == 2" if _total else "result == value_of_spend and len(CALLS) == 1")],
+        defined_props=["C11", "C13", "C09"])
+
+
+def _env_one_off(units):
+    def make(it):
+        from pyvc.interp import PyObjV
+        from pyvc import source
+
+        return {"self": PyObjV("Program", source.load("programs"), {"name": "prog", "unit_cost": PyObjV("TimeSeries", source.load("utils"), {"units": units})})}
+
+    return make
+
+
+for _tag, _units, _want in (("per_person", "$/person (one-off)", True), ("per_person_per_year", "$/person/year", False)):
+    CONTRACTS["programs:Program.is_one_off#%s" % _tag] = dict(
+        schema=schema, make_env=_env_one_off(_units),
+        ensures=[("C11.a_unit_cost_per_person_is_one_off_and_per_person_per_year_is_continuous", "result == %r" % _want)], defined_props=["C11", "C13"])
